@@ -9,7 +9,7 @@ WT="$(mktemp -d /tmp/xjs-wt.XXXXXX)"
 git -C /repo worktree add -q --detach "$WT" HEAD || exit 2
 cleanup() { git -C /repo worktree remove --force "$WT" 2>/dev/null; rm -rf "$WT"; git -C /repo worktree prune; ALT="/verif/.build/alt/$(echo "$WT" | md5sum | cut -c1-10)"; [ -n "${KEEP_ALT:-}" ] || rm -rf "$ALT"; }
 trap cleanup EXIT
-git -C "$WT" apply "$PATCH" || { echo "patch does not apply" >&2; exit 2; }
+git -C "$WT" apply "$PATCH" 2>/dev/null || git -C "$WT" apply -3 "$PATCH" || { echo "patch does not apply" >&2; exit 2; }
 if [ "$TESTS" = "--tests" ]; then
   ( cd "$WT" && go build ./... && go test -vet=off -count=1 ./... 2>&1 | tail -12 )
 fi
